@@ -120,49 +120,7 @@ func c05(c *Ctx) {
 	}
 	// what the wrappers hand back is the buffer the block loop filled, whole: a result cut down afterwards (zero
 	// bytes "of padding" stripped, a prefix dropped) is no longer the inverse of the other direction
-	for _, name := range []string{"Encrypt", "Decrypt"} {
-		f := c.fn("R05.V", load.IgePkg, "", name)
-		if f == nil {
-			continue
-		}
-		var outs []ssa.Value
-		for _, cs := range an.Calls(f) {
-			if strings.HasSuffix(cs.Name, "Cipher).doAES256IGEencrypt") || strings.HasSuffix(cs.Name, "Cipher).doAES256IGEdecrypt") {
-				if args := an.CallArgs(cs.Common); len(args) >= 3 {
-					outs = append(outs, args[2])
-				}
-			}
-		}
-		n := 0
-		var bad []string
-		for _, b := range f.Blocks {
-			for _, in := range b.Instrs {
-				ret, ok := an.AsReturn(in)
-				if !ok || len(ret.Results) != 2 {
-					continue
-				}
-				v := an.RetVal(ret, 0)
-				if k, isK := v.(*ssa.Const); isK && k.IsNil() {
-					continue
-				}
-				n++
-				same := false
-				for _, o := range outs {
-					if o == v {
-						same = true
-					}
-				}
-				if !same {
-					bad = append(bad, "the result returned at "+c.pos(ret.Pos())+" is not the buffer handed to the block loop as its output ("+v.String()+")")
-				}
-			}
-		}
-		if n == 0 || len(outs) == 0 {
-			r.Undecide("R05.V", "result-is-the-loop-output:"+name, c.pos(f.Pos()), sprintf("%d value return(s), %d block-loop call(s)", n, len(outs)))
-		} else {
-			r.Check(len(bad) == 0, "R05.V", "result-is-the-loop-output:"+name, c.pos(f.Pos()), strings.Join(bad, "; "))
-		}
-	}
+	c.resultIsLoopOutput("R05.V", "Encrypt", "Decrypt")
 	{
 		// ... and no scratch space shared through package variables (two goroutines encrypt and decrypt at once)
 		var entries []*ssa.Function
@@ -785,4 +743,53 @@ func callFresh(call *ssa.Call, idx, depth int, seen map[ssa.Value]bool, why *str
 	}
 	*why = "the result of " + name + " (not known to allocate)"
 	return false
+}
+
+// resultIsLoopOutput: what ige.Encrypt / ige.Decrypt return with a nil error is the very buffer handed to the block
+// loop as its output.
+func (c *Ctx) resultIsLoopOutput(rule string, names ...string) {
+	r := c.R
+	for _, name := range names {
+		f := c.fn(rule, load.IgePkg, "", name)
+		if f == nil {
+			continue
+		}
+		var outs []ssa.Value
+		for _, cs := range an.Calls(f) {
+			if strings.HasSuffix(cs.Name, "Cipher).doAES256IGEencrypt") || strings.HasSuffix(cs.Name, "Cipher).doAES256IGEdecrypt") {
+				if args := an.CallArgs(cs.Common); len(args) >= 3 {
+					outs = append(outs, args[2])
+				}
+			}
+		}
+		n := 0
+		var bad []string
+		for _, b := range f.Blocks {
+			for _, in := range b.Instrs {
+				ret, ok := an.AsReturn(in)
+				if !ok || len(ret.Results) != 2 {
+					continue
+				}
+				v := an.RetVal(ret, 0)
+				if k, isK := v.(*ssa.Const); isK && k.IsNil() {
+					continue
+				}
+				n++
+				same := false
+				for _, o := range outs {
+					if o == v {
+						same = true
+					}
+				}
+				if !same {
+					bad = append(bad, "the result returned at "+c.pos(ret.Pos())+" is not the buffer handed to the block loop as its output ("+v.String()+")")
+				}
+			}
+		}
+		if n == 0 || len(outs) == 0 {
+			r.Undecide(rule, "result-is-the-loop-output:"+name, c.pos(f.Pos()), sprintf("%d value return(s), %d block-loop call(s)", n, len(outs)))
+		} else {
+			r.Check(len(bad) == 0, rule, "result-is-the-loop-output:"+name, c.pos(f.Pos()), strings.Join(bad, "; "))
+		}
+	}
 }
